@@ -102,6 +102,7 @@ def rdOp : Rd (Option Op) := do
   | "ab" => return some .altBuffer
   | "sz" => do let w ← Rd.int; let h ← Rd.int; return some (.setSize ⟨w, h⟩)
   | "wr" => do let n ← Rd.num; let bs ← rdBytes n; return some (.rawWrite bs)
+  | "in" => do let n ← Rd.num; let bs ← rdBytes n; return some (.input bs)
   | _ => return none
 
 def parseOp (s : String) : Option Op := (rdOp.run (words s)).1
